@@ -10,6 +10,19 @@ NOTE = ("Trusted: Coq 8.16.1 kernel (no axioms: every property theorem prints 'C
         "The theorems are about the hand-written Gallina model; the model is tied to /repo on every run by the table "
         "translator and by the differential correspondence run, which bounds what has been exercised.")
 CLAIMED = {
+    "C06": dict(
+        text="42 theorems. Parser layer, for EVERY token stream: an accepted stream is bracket-balanced (second invariant Good/first_ok "
+             "carried through all 21 parser states next to C02's Inv) modulo the one recorded swallowed-closer rule, so no accepted stream "
+             "has an open, mismatched or stray flow closer; from every flow state an end-of-stream/document marker/block token/wrong closer "
+             "is a parse error at that token; a second root node, a directive without '...', an alias without anchor (also across documents), "
+             "an undeclared tag handle, a repeated %YAML, directives without '---' are each rejected at the stated site. Scanner layer: "
+             "unknown escapes, bad/truncated hex digits, non-scalar code points, stale required keys, ':' after an invalidated key, flow "
+             "level above the limit are errors. The closed full statement C06_full (renderer of well-formed trees composed with inductive "
+             "damage operators) is machine-REFUTED by the four recorded findings. Oracle/tie: 2.5k (thorough 29k) generated well-formed "
+             "streams x 15 damage classes / 47 operators must be rejected by events/str, events/iter and load, at the model's position; "
+             "all 94 fail:true suite cases. Known findings: stray closer after empty explicit key; long implicit key in flow sequence; "
+             "flow continuation at block indentation; multi-line flow pair key after a flow mapping.",
+        ref="DESIGN.md 5/C06", tech="Rocq proof (bracket-balance invariant over all token streams; per-site rejection theorems; refutation of the full statement) + damage-operator rejection oracle on implementation + differential correspondence"),
     "C04": dict(
         text="15 theorems: the GENERATED escape table of scanner.rs agrees pair by pair, in both directions, with an independently written "
              "table of YAML 1.2 named escapes (an edited match arm breaks the proof on the next run); hex digit values and read_hex for "
